@@ -266,7 +266,13 @@ pub fn ccitt_docs() -> Vec<Planted> {
         let mut bodies = vec![];
         for columns in values("enc.CCITT.Columns") {
             for rows in values("enc.CCITT.Rows") {
-                bodies.push(stream_body(&format!("/Type /XObject /Subtype /Image /Width 8 /Height 1 /BitsPerComponent 1 /ImageMask true /Filter /CCITTFaxDecode /DecodeParms << /K {} /Columns {} /Rows {} >>", k, columns, rows), &[0x80, 0x00, 0x10, 0x01]));
+                // `image_data` compares /Width with /Columns before it decodes: both are given the same value
+                // (and once a fixed width, for the comparison itself)
+                let width = if (0..=2147483647).contains(&columns) { columns } else { 8 };
+                bodies.push(stream_body(&format!("/Type /XObject /Subtype /Image /Width {} /Height 1 /BitsPerComponent 1 /ImageMask true /Filter /CCITTFaxDecode /DecodeParms << /K {} /Columns {} /Rows {} >>", width, k, columns, rows), &[0x80, 0x00, 0x10, 0x01]));
+                if rows == 0 {
+                    bodies.push(stream_body(&format!("/Type /XObject /Subtype /Image /Width 8 /Height 1 /BitsPerComponent 1 /ImageMask true /Filter /CCITTFaxDecode /DecodeParms << /K {} /Columns {} >>", k, columns), &[0x80, 0x00, 0x10, 0x01]));
+                }
             }
         }
         out.push(dense_doc("ccitt-grid", format!("ccitt-grid[K={} × Columns × Rows]", k), bodies, ""));
